@@ -431,6 +431,17 @@ func seqNames(ops []op, seq []int) []string {
 	return out
 }
 
+func isMutator(name string) bool {
+	return strings.HasPrefix(name, "Set(") || strings.HasPrefix(name, "Remove(") || strings.HasPrefix(name, "Sort(") || strings.HasPrefix(name, "UnmarshalJSON(")
+}
+
+func stripArgs(name string) string {
+	if i := strings.Index(name, "("); i > 0 {
+		return name[:i]
+	}
+	return name
+}
+
 func clause(msg string) string {
 	// normalised failure kind: the text before the first ':' plus the message class
 	msg = strings.TrimSpace(msg)
@@ -599,6 +610,44 @@ func main() {
 						What:    fmt.Sprintf("from %s (impl {%s}): %s", pre, preImpl, s),
 						Detail:  map[string]any{"sequence": seqNames(ops, st.seq), "op": o.Name},
 					})
+				}
+				// Derived maps (Filter, Map, FromMap, decode into a fresh map) must be
+				// independent of their source: apply every mutating operation to one of
+				// the two and check that the other one does not move (one-step lookahead
+				// over the pair, both directions).
+				if p == nil && nx != x {
+					for mi, mo := range ops {
+						if !isMutator(mo.Name) {
+							continue
+						}
+						for _, side := range []string{"derived", "source"} {
+							src, sm, _ := replaySeq(ops, st.seq)
+							var der *M
+							var dm model
+							if pp := vx.Catch(func() { der, dm, _ = o.Do(src, sm) }); pp != nil {
+								continue
+							}
+							transitions++
+							target, other, tm := der, src, dm
+							if side == "source" {
+								target, other, tm = src, der, sm
+							}
+							before := canonImpl(other)
+							if pp := vx.Catch(func() { ops[mi].Do(target, tm) }); pp != nil {
+								continue // panics of the mutator itself are reported on its own transition
+							}
+							if after := canonImpl(other); after != before {
+								msg := fmt.Sprintf("%s: the %s map is not independent: %s on it changes the other map {%s} -> {%s}", o.Name, side, stripArgs(mo.Name), before, after)
+								r.Fail(vx.Failure{
+									Kind:    clause(fmt.Sprintf("%s: %s map aliased, visible through %s", stripArgs(o.Name), side, stripArgs(mo.Name))),
+									Witness: fmt.Sprintf("state=%s op=%s then %s on the %s", pre, o.Name, mo.Name, side),
+									Size:    len(m),
+									What:    fmt.Sprintf("from %s: %s", pre, msg),
+									Detail:  map[string]any{"sequence": seqNames(ops, st.seq), "op": o.Name},
+								})
+							}
+						}
+					}
 				}
 				outcomes[fmt.Sprintf("%s|%v", o.Name, len(mism) == 0)] = true
 				if p != nil {
